@@ -1,8 +1,8 @@
 (* C18: the theorems assembled for Props/C18.v, and worked examples showing that their hypotheses are
    satisfiable by non-trivial values and that each side condition is needed. *)
 From Coq Require Import List String Bool PrimFloat.
-From Verif Require Import Base.Result Base.Str Base.PyDict Model.Types Model.Domain Model.Exec Model.ChangeSignature
-  Spec.Pddl Spec.Rename Proofs.C18_Dict Proofs.C18_Alpha Proofs.C18_Denote Proofs.C18_Exec Proofs.C18_Check.
+From Verif Require Import Base.Result Base.Str Base.Sexp Base.PyDict Model.Types Model.Domain Model.Exec Model.ChangeSignature
+  Spec.Pddl Spec.Rename Proofs.C18_Dict Proofs.C18_Alpha Proofs.C18_Denote Proofs.C18_Exec Proofs.C18_Check Proofs.C18_Parser.
 Import ListNotations.
 Open Scope string_scope.
 Open Scope list_scope.
@@ -37,6 +37,25 @@ Proof.
   split; [apply denote_effs_rename; exact Hd|].
   split; [apply denote_action_rename; exact Hd|].
   apply rename_same_behaviour. exact H.
+Qed.
+
+(* for an action read by the parser: a condition on the mapping alone *)
+Theorem rename_parsed (num : numparser) (dom : mdomain) (e : list sexp) (a : maction) (m : renaming) :
+  wf_funcs (d_funcs dom) -> num_ok num ->
+  parse_action num (d_types dom) (d_consts dom) (d_preds dom) (d_funcs dom) e = Ok a ->
+  let ps := dkeys (ma_sig a) in
+  (forall n, ~ In n ps -> rn m n = n) ->
+  (forall x y, In x ps -> In y ps -> rn m x = rn m y -> x = y) ->
+  (forall p, In p ps -> rn m p <> p ->
+     (In (rn m p) ps \/ ~ In (rn m p) (names_action a)) /\
+     ~ In (rn m p) (bound_maction a) /\ dmem (d_consts dom) (rn m p) = false /\ dmem (d_consts dom) p = false) ->
+  ma_sig (change_signature m a) = map (rn_item m) (ma_sig a) /\
+  denote_action (change_signature m a) = option_map (ren_action (rn m)) (denote_action a) /\
+  same_behaviour dom a (change_signature m a).
+Proof.
+  intros W K P ps H1 H2 H3.
+  pose proof (parsed_renaming_ok num dom e a m W K P H1 H2 H3) as Hok.
+  destruct (rename_correct dom m a Hok) as [A [_ [_ [C D]]]]. exact (conj A (conj C D)).
 Qed.
 
 (* model + spec: what the renamed object model denotes behaves like what the original denotes *)
